@@ -247,6 +247,45 @@ pub(crate) enum Visibility {
     Visible,
 }
 
+/// Verification hooks: thin wrappers exposing the crate-private parts of the state machine.
+#[cfg(feature = "verif_hooks")]
+pub mod verif {
+    use super::*;
+
+    /// Creates an instance with the blacklist (`false`) or whitelist (`true`) policy.
+    pub fn new(whitelist: bool) -> ClientVisibility {
+        if whitelist {
+            ClientVisibility::whitelist()
+        } else {
+            ClientVisibility::blacklist()
+        }
+    }
+
+    /// Calls [`ClientVisibility::update`].
+    pub fn update(visibility: &mut ClientVisibility) {
+        visibility.update();
+    }
+
+    /// Calls [`ClientVisibility::remove_despawned`].
+    pub fn remove_despawned(visibility: &mut ClientVisibility, entity: Entity) {
+        visibility.remove_despawned(entity);
+    }
+
+    /// Calls [`ClientVisibility::drain_lost`].
+    pub fn drain_lost(visibility: &mut ClientVisibility) -> Vec<Entity> {
+        visibility.drain_lost().collect()
+    }
+
+    /// Calls [`ClientVisibility::state`]: 0 hidden, 1 gained, 2 visible.
+    pub fn state(visibility: &ClientVisibility, entity: Entity) -> u8 {
+        match visibility.state(entity) {
+            Visibility::Hidden => 0,
+            Visibility::Gained => 1,
+            Visibility::Visible => 2,
+        }
+    }
+}
+
 #[cfg(test)]
 mod tests {
     use super::*;
